@@ -969,7 +969,7 @@ pub fn run(ctx: &Ctx) {
 
     // Random lists.
     if enabled("lists") {
-        let n = ctx.tier.pick(100_000u64, 5_000_000u64);
+        let n = ctx.tier.pick(1_500_000u64, 20_000_000u64);
         let max_chunks = ctx.tier.pick(24usize, 32usize);
         run_generated(ctx, "lists", n, || case_strategy(max_chunks), |c: &HpackCase, case| oracle(ctx, c, case));
     }
